@@ -615,6 +615,8 @@ type absEngine struct {
 	steps    int
 	dbgState *nst
 	inlineMemo map[string]*nst
+	apLens     bool                // lengths of lists in fields / captured variables are named by access path
+	apField    map[string]fieldRef // access-path length symbol -> the field it reads
 	memoCases  map[string][]retCase // per memo key: the return states by nil-ness of the error result
 	retCases   map[string][]retCase // per frame ctx + call: the cases of the last analysis of that call
 	structFields map[string][]string // struct type name -> tracked int field paths
@@ -794,7 +796,7 @@ func (e *absEngine) lenLin(fr *frame, st *nst, v ssa.Value) linexp {
 					break
 				}
 			}
-			if ia, ok := x.X.(*ssa.IndexAddr); ok {
+			if ia, ok := x.X.(*ssa.IndexAddr); ok && !e.apLens {
 				name = "len:" + fr.ctx + ":elem(" + ia.X.Name() + "," + ia.Index.Name() + ")"
 				break
 			}
@@ -910,6 +912,28 @@ func (e *absEngine) step(fr *frame, st *nst, in ssa.Instruction) {
 				st.assign(fr.v(x.Name()), lvar(c), nil)
 				return
 			}
+			// a list read from a field / captured variable / cell: the value read has, from now on, the length the
+			// place has now (the value's own symbol is never invalidated; the place's is, by stores and calls)
+			if e.apLens {
+				isList := false
+				switch t := x.Type().Underlying().(type) {
+				case *types.Slice:
+					isList = true
+				case *types.Basic:
+					isList = t.Info()&types.IsString != 0
+				}
+				if isList {
+					if ap := e.apName(fr, x); ap != "" {
+						if _, ok := st.z.lookup(ap); !ok {
+							st.z.add("", ap, 0)
+						}
+						vn := "len:" + fr.ctx + ":" + x.Name()
+						st.assign(vn, lvar(ap), nil)
+						st.z.add("", vn, 0)
+						return
+					}
+				}
+			}
 		}
 		if x.Op == token.SUB && isIntType(x.Type()) {
 			if l, ok := e.lin(fr, x.X); ok {
@@ -943,6 +967,29 @@ func (e *absEngine) step(fr *frame, st *nst, in ssa.Instruction) {
 		// a store of a whole struct value into a local allocation: copy the tracked fields
 		if a, ok := x.Addr.(*ssa.Alloc); ok {
 			e.copyStruct(fr, st, "l:"+fr.ctx+":"+a.Name(), e.structKey(fr, x.Val), x.Val.Type())
+		}
+		if e.apLens {
+			e.killApLens(fr, st, x)
+			// a list assigned to a captured variable or a local cell: its length symbol takes the new length
+			var nm string
+			switch ad := x.Addr.(type) {
+			case *ssa.FreeVar:
+				nm = "len:" + fr.ctx + ":ap:fv:" + ad.Name()
+			case *ssa.Alloc:
+				nm = "len:" + fr.ctx + ":ap:cell:" + ad.Name()
+			}
+			if nm != "" {
+				switch x.Val.Type().Underlying().(type) {
+				case *types.Slice:
+					st.assign(nm, e.lenLin(fr, st, x.Val), nil)
+					st.z.add("", nm, 0)
+				default:
+					if b, ok := x.Val.Type().Underlying().(*types.Basic); ok && b.Info()&types.IsString != 0 {
+						st.assign(nm, e.lenLin(fr, st, x.Val), nil)
+						st.z.add("", nm, 0)
+					}
+				}
+			}
 		}
 		// element stores invalidate element length symbols of that base
 		if ia, ok := x.Addr.(*ssa.IndexAddr); ok {
@@ -982,6 +1029,13 @@ func (e *absEngine) step(fr *frame, st *nst, in ssa.Instruction) {
 		st.forget(name)
 	case *ssa.Slice:
 		e.sliceOblig(fr, st, x)
+	case *ssa.MakeSlice:
+		// make([]T, n): length n
+		if l, ok := e.lin(fr, x.Len); ok {
+			nm := "len:" + fr.ctx + ":" + x.Name()
+			st.assign(nm, l, nil)
+			st.z.add("", nm, 0)
+		}
 	case *ssa.IndexAddr:
 		e.indexOblig(fr, st, in, x.X, x.Index)
 	case *ssa.Index:
@@ -992,6 +1046,9 @@ func (e *absEngine) step(fr *frame, st *nst, in ssa.Instruction) {
 		}
 	case *ssa.Call:
 		e.call(fr, st, x)
+		if e.apLens {
+			e.killApLens(fr, st, x)
+		}
 	case *ssa.Extract:
 		e.extract(fr, st, x)
 	case *ssa.Next:
@@ -1160,6 +1217,12 @@ func (e *absEngine) call(fr *frame, st *nst, call *ssa.Call) {
 	if b, ok := call.Call.Value.(*ssa.Builtin); ok {
 		if b.Name() == "len" {
 			st.assign(name, e.lenLin(fr, st, call.Call.Args[0]), e.imp())
+			return
+		}
+		if b.Name() == "append" && e.apLens && len(call.Call.Args) == 2 {
+			ln := "len:" + fr.ctx + ":" + call.Name()
+			st.assign(ln, e.lenLin(fr, st, call.Call.Args[0]).plus(e.lenLin(fr, st, call.Call.Args[1])), nil)
+			st.z.add("", ln, 0)
 			return
 		}
 		if isIntType(call.Type()) {
@@ -2162,4 +2225,80 @@ func (e *absEngine) errCaseSplit(fr *frame, b *ssa.BasicBlock, ifi *ssa.If, trut
 		e.step(fr, out, in)
 	}
 	return out, true
+}
+
+// apName: the access-path length symbol of a list read from a struct field, a captured variable or a local cell.
+func (e *absEngine) apName(fr *frame, x *ssa.UnOp) string {
+	switch ad := x.X.(type) {
+	case *ssa.FieldAddr:
+		if n, f, _, ok := fieldOf(ad); ok && n != nil {
+			name := "len:" + fr.ctx + ":ap:" + accessPath(x)
+			if e.apField == nil {
+				e.apField = map[string]fieldRef{}
+			}
+			e.apField[name] = fieldRef{n, f}
+			return name
+		}
+	case *ssa.FreeVar:
+		return "len:" + fr.ctx + ":ap:fv:" + ad.Name()
+	case *ssa.Alloc:
+		return "len:" + fr.ctx + ":ap:cell:" + ad.Name()
+	}
+	return ""
+}
+
+// killApLens: after instruction in (a store or a call), forget the access-path length symbols it may invalidate.
+func (e *absEngine) killApLens(fr *frame, st *nst, in ssa.Instruction) {
+	var names []string
+	for _, nm := range st.z.names[1:] {
+		if strings.Contains(nm, ":ap:") {
+			names = append(names, nm)
+		}
+	}
+	for nm := range st.k.vars() {
+		if strings.Contains(nm, ":ap:") {
+			names = append(names, nm)
+		}
+	}
+	seen := map[string]bool{}
+	for _, nm := range names {
+		if seen[nm] {
+			continue
+		}
+		seen[nm] = true
+		kill := false
+		switch x := in.(type) {
+		case *ssa.Store:
+			switch ad := x.Addr.(type) {
+			case *ssa.FieldAddr:
+				if _, f, _, ok := fieldOf(ad); ok {
+					if r, has := e.apField[nm]; has && r.f == f {
+						kill = true
+					}
+				}
+			case *ssa.FreeVar:
+				kill = strings.HasSuffix(nm, ":ap:fv:"+ad.Name())
+			case *ssa.Alloc:
+				kill = strings.HasSuffix(nm, ":ap:cell:"+ad.Name())
+			}
+		case ssa.CallInstruction:
+			if _, isB := x.Common().Value.(*ssa.Builtin); isB {
+				continue
+			}
+			if g := x.Common().StaticCallee(); g != nil {
+				if r, has := e.apField[nm]; has {
+					kill = fieldStoredBy(in, r.st, r.f, 0)
+				} else {
+					// a captured variable or local cell: a closure of this function may assign it
+					kill = g.Parent() != nil
+				}
+			} else {
+				kill = true // a call through a function value or an interface
+			}
+		}
+		if kill {
+			st.forget(nm)
+			st.z.add("", nm, 0)
+		}
+	}
 }
